@@ -10,6 +10,9 @@ Sub-check "roundtrip": hand-written parameters for every kind / dimension / sour
                        individuals; save of the reloaded model reproduces the file except the `leaspy_version` key.
                        A third of the cases are *updated in place*: the object first receives another generated parameter set and
                        then the final one through a second load_parameters; every oracle is applied to the final set.
+                       A fifth of the cases go on with one or two further, different models saved over the same file path and
+                       reloaded from it (a stale read of the path rebuilds the previous model). Feature names include leading /
+                       trailing / inner blanks and tabs, given at construction, through the `features` setter or by the dataset.
 
 Known findings handled by the harness (DESIGN.md section 6):
   F7  - `save` writes the *instance* name under "name", `load` feeds it to `model_factory` as the model *kind*: a model whose name
@@ -50,7 +53,9 @@ RULE = (
     "cohort (vf.core.gen.cohort, 2-8 individuals) x n_iter 8-30 x seed x individuals to estimate; roundtrip: the same configuration "
     "space with hand-written float32 parameters in the DESIGN.md ranges, with_mixing_matrix in {True, False}, constructor given "
     "features only or features+dimension, and for 1/3 of the cases a first parameter set replaced by the final one through a second "
-    "load_parameters on the same object. Non-trivial = source_dimension >= 1 and dimension >= 2 and instance name != model kind; "
+    "load_parameters on the same object, for 1/4 feature names assigned through the `features` setter, for 1/5 one or two further "
+    "different models written over the same file path and reloaded. Feature names: pool + generated text incl. leading/trailing/inner "
+    "blanks and tabs (also as dataset headers of the fitted models). Non-trivial = source_dimension >= 1 and dimension >= 2 and instance name != model kind; "
     "distinct by the whole case."
 )
 ASSUMPTIONS = [
@@ -81,7 +86,8 @@ REQUIRED_CLASSES = {
     "name:other-kind": 50, "name:kind-in-other-case": 50, "sources>=1": 0.3,
     "kind:logistic": 100, "kind:linear": 100, "kind:shared_speed_logistic": 100, "kind:joint": 100, "kind:mixture_logistic": 100,
     "noise:gaussian-scalar": 200, "noise:gaussian-diagonal": 200, "noise:bernoulli": 30, "with_mixing_matrix=False": 200,
-    "features:unicode-or-space": 200, "give-dimension": 200,
+    "features:unicode-or-space": 200, "features:outer-blank": 200, "features:tab": 100, "features:via-setter": 200,
+    "fit:features:outer-blank": 30, "roundtrip:same-path-overwritten": 200, "roundtrip:same-path-later-step": 200, "give-dimension": 200,
     "fit:scalar-noise": 50, "fit:sources>=1": 50, "fit:kind:joint": 10, "fit:kind:mixture_logistic": 10, "fit:pop-variables-moved": 100,
 }
 
@@ -94,11 +100,12 @@ RESERVED_COLUMNS = {"ID", "TIME", "EVENT_TIME", "EVENT_BOOL"}
 # strategies (plain JSON)
 # ------------------------------------------------------------------------------------------------
 _FEATURE_POOL = ["f0", "f1", "f2", "f3", "Y1", "memory score", "ADAS-13", "0", "a_b", "x.y", "é", "αβ", "MMSE", "putamen (left)",
-                 "ft 1", "日本", "Tau", "xi", "model", "name"]
+                 "ft 1", "日本", "Tau", "xi", "model", "name",
+                 " MMSE", "ADAS 13 ", "\tx", "y\t", "a\tb", "  two  blanks  ", " f0", "f1 "]
 
 
 def _feature_name():
-    txt = st.text(alphabet=st.sampled_from(list("abcXYZ019 _-.éµ/%")), min_size=1, max_size=8).map(
+    txt = st.text(alphabet=st.sampled_from(list("abcXYZ019 \t_-.éµ/%")), min_size=1, max_size=8).map(
         lambda s: s + "_" if s in RESERVED_COLUMNS else s)
     return st.one_of(st.sampled_from(_FEATURE_POOL), txt)
 
@@ -219,17 +226,31 @@ def _individuals(draw, sd, shared_speed=False):
 
 
 @st.composite
-def roundtrip_case(draw, kinds=KINDS):
+def _roundtrip_single(draw, kinds=KINDS):
     cfg = draw(_cfg_strategy(kinds))
     kw = cfg["kwargs"]
     case = dict(cfg=cfg, name=draw(_name(cfg["kind"])), features=draw(_features(kw["dimension"])),
                 give_dimension=draw(st.booleans()), with_mixing_matrix=draw(st.sampled_from([True, True, False])),
                 parameters=draw(_parameters(cfg)),
                 individuals=draw(_individuals(kw["source_dimension"], cfg["kind"] == "shared_speed_logistic")))
+    if draw(st.sampled_from([False, False, False, True])):
+        # names assigned through the `features` setter of an object constructed with its dimension only
+        case["features_via_setter"] = True
     if draw(st.sampled_from([False, False, True])):
         # multi-step variant: the object first receives another parameter set, then `parameters` through a second
         # load_parameters ("instantiate or update"); everything is judged against `parameters`, the set that gets saved
         case["parameters_first"] = draw(_parameters(cfg))
+    return case
+
+
+@st.composite
+def roundtrip_case(draw, kinds=KINDS):
+    case = draw(_roundtrip_single(kinds))
+    if draw(st.sampled_from([False, False, False, False, True])):
+        # multi-step variant: one or two further, different models (any kind) are saved over the SAME file path within the
+        # case and reloaded from it; each step is judged with the whole oracle
+        n = draw(st.integers(1, 2))
+        case["then_same_path"] = [draw(_roundtrip_single(KINDS)) for _ in range(n)]
     return case
 
 
@@ -393,10 +414,15 @@ def build_handwritten(case):
 
     kind, kw = _kind_kwargs(case)
     hp = {k: v for k, v in kw.items() if k != "dimension"}
-    hp["features"] = list(case["features"])
-    if case.get("give_dimension"):
+    if case.get("features_via_setter"):
         hp["dimension"] = kw["dimension"]
-    m = model_factory(kind, instance_name=case["name"], **hp)
+        m = model_factory(kind, instance_name=case["name"], **hp)
+        m.features = list(case["features"])
+    else:
+        hp["features"] = list(case["features"])
+        if case.get("give_dimension"):
+            hp["dimension"] = kw["dimension"]
+        m = model_factory(kind, instance_name=case["name"], **hp)
     if case.get("parameters_first") is not None:
         m.load_parameters({k: v for k, v in case["parameters_first"].items()})
     m.load_parameters({k: v for k, v in case["parameters"].items()})
@@ -731,6 +757,10 @@ def _classes(case, facts):
     feats = case.get("features") or case["cohort"]["features"]
     if any(ord(c) > 127 or c == " " for f in feats for c in f):
         cl.append("features:unicode-or-space")
+    if any(f != f.strip() for f in feats):
+        cl.append("features:outer-blank")
+    if any("\t" in f for f in feats):
+        cl.append("features:tab")
     for k in ("f7", "f19", "f64"):
         if facts.get(k):
             cl.append(k + "-affected")
@@ -742,20 +772,29 @@ def _classes(case, facts):
     return cl, nt
 
 
-def body_roundtrip(col: Collector, case):
+def _roundtrip_step(col: Collector, inp, case, extra_classes=()):
+    """One hand-written model through the whole oracle; `inp` is what a replay needs (the whole generated case)."""
     try:
         model = build_handwritten(case)
     except Exception as e:
-        col.fail("roundtrip", "construction-raises:" + exc_bucket(e), case, observed=repr(e)[:400], expected="a model holding the parameters")
+        col.fail("roundtrip", "construction-raises:" + exc_bucket(e), inp, observed=repr(e)[:400], expected="a model holding the parameters")
         return
-    facts = roundtrip(col, "roundtrip", case, case, model, from_fit=False)
+    facts = roundtrip(col, "roundtrip", inp, case, model, from_fit=False)
     cl, nt = _classes(case, facts)
     updated = case.get("parameters_first") is not None
-    col.case(classes=["roundtrip"] + cl + (["give-dimension"] if case.get("give_dimension") else [])
-             + (["roundtrip:updated-in-place"] if updated else []),
-             nontrivial=jhash(case) if nt else None,
+    col.case(classes=["roundtrip"] + cl + list(extra_classes) + (["give-dimension"] if case.get("give_dimension") else [])
+             + (["roundtrip:updated-in-place"] if updated else []) + (["features:via-setter"] if case.get("features_via_setter") else []),
+             nontrivial=jhash([case, list(extra_classes)]) if nt else None,
              sample=dict(sub_check="roundtrip", cfg=case["cfg"], name=case["name"], features=case["features"],
-                         with_mixing_matrix=case["with_mixing_matrix"], parameters=case["parameters"], updated_in_place=updated))
+                         with_mixing_matrix=case["with_mixing_matrix"], parameters=case["parameters"], updated_in_place=updated,
+                         same_path_steps=1 + len(inp.get("then_same_path") or [])))
+
+
+def body_roundtrip(col: Collector, case):
+    chain = case.get("then_same_path") or []
+    _roundtrip_step(col, case, case, ["roundtrip:same-path-overwritten"] if chain else [])
+    for nxt in chain:  # the same two file paths are written again by a different model
+        _roundtrip_step(col, case, nxt, ["roundtrip:same-path-later-step"])
 
 
 def fit_model(col: Collector, case):
@@ -824,6 +863,8 @@ def body_fit(col: Collector, case):
         extra.append("fit:sources>=1")
     if moved:
         extra.append("fit:pop-variables-moved")
+    if "features:outer-blank" in cl:
+        extra.append("fit:features:outer-blank")
     col.case(classes=extra + cl, nontrivial=jhash(case) if nt else None,
              sample=dict(sub_check="fit", cfg=case["cfg"], name=case["name"], n_iter=case["n_iter"], seed=case["seed"],
                          n_rows=len(case["cohort"]["rows"]), parameters={k: v.tolist() for k, v in model.parameters.items()}))
